@@ -24,7 +24,14 @@ import pn  # noqa: F401
 IMPL = "1.2.840.10008.1.2"
 
 
-def replay(hist, svc):
+# the model's ids (operation 1, operation 2, others) are carried by real Message IDs: the usual small numbers, or the ends of the
+# legal range (Message ID is a US element: 0 and 65535 are legal) - the log keeps the model's ids
+IDMAPS = ({}, {1: 0, 2: 65535}, {1: 65535, 2: 0})
+
+
+def replay(hist, svc, idmap=None):
+    idmap = idmap or {}
+    real = lambda m: idmap.get(m, m)  # noqa: E731
     import scp_exec as X
     from scp_rig import ScpRig, find_rq, get_rq, move_rq
     from pynetdicom import evt
@@ -49,7 +56,7 @@ def replay(hist, svc):
 
     def inject_cancel(a, mid):
         c = C_CANCEL()
-        c.MessageIDBeingRespondedTo = mid
+        c.MessageIDBeingRespondedTo = real(mid)
         for p in pdatas_for(c, 1, 1):
             a.dimse.receive_primitive(p)
         log.append({"e": "cancel", "v": mid, "r": False})
@@ -81,7 +88,7 @@ def replay(hist, svc):
                         yield 0x0000, None
 
                 rig2 = ScpRig([(1, uid, IMPL, False, True)], handlers=[(event_of, other_handler)])
-                for p in pdatas_for(mk(msg_id=k, sop_class=uid), 1, 1):
+                for p in pdatas_for(mk(msg_id=real(k), sop_class=uid), 1, 1):
                     rig2.assoc.dimse.receive_primitive(p)
                 cid2, msg2 = rig2.assoc.dimse.get_msg(block=False)
                 rig2.assoc._serve_request(msg2, cid2)
@@ -108,7 +115,7 @@ def replay(hist, svc):
             for e in segs[0 if k == 1 else 10]:
                 inject_cancel(a, e[1])
             state["k"] = k
-            for p in pdatas_for(mk(msg_id=k, sop_class=uid), 1, 1):
+            for p in pdatas_for(mk(msg_id=real(k), sop_class=uid), 1, 1):
                 a.dimse.receive_primitive(p)
             cid, msg = a.dimse.get_msg(block=False)
             if msg is None:
@@ -163,7 +170,8 @@ def run(ctx: Ctx) -> int:
             hists.append(pre + burst[: n // 2] + [("start", k)] + burst[n // 2:] + [("cancel", k), ("poll", k), ("end", k)] + post)
     traces = []
     for i, h in enumerate(hists):
-        o = replay(h, ("FIND", "GET", "MOVE")[i % 3])
+        o = replay(h, ("FIND", "GET", "MOVE")[i % 3], IDMAPS[(i // 3) % 3])
+        o["idmap"] = IDMAPS[(i // 3) % 3]
         o["id"] = i + 1
         o["hist"] = h
         traces.append(o)
@@ -178,7 +186,7 @@ def run(ctx: Ctx) -> int:
             before = t["ev"][:bad]
             kind = "missed" if not ev["r"] else "spurious"
             ctx.violation({"clause": "C23_Match", "kind": kind, "burst": "over-capacity" if ncancel > 10 else "within-capacity"},
-                          f"C23_Match: {t['svc']} operation {ev['v']}: poll #{bad} reported is_cancelled={ev['r']} but the property prescribes {not ev['r']}; "
+                          f"C23_Match: {t['svc']} operation {ev['v']} (real Message IDs {t['idmap'] or 'as in the model'}): poll #{bad} reported is_cancelled={ev['r']} but the property prescribes {not ev['r']}; "
                           f"events so far={[(x['e'], x['v']) for x in before]} exc={t['exc']} stray messages served={t['stray']}", {"hist": t["hist"], "svc": t["svc"]})
         elif t["exc"] or t["stray"]:
             ctx.violation({"clause": "C23_StrayCancel", "burst": "over-capacity" if ncancel > 10 else "within-capacity"},
